@@ -43,6 +43,7 @@ type FuncSpec struct {
 	ModSet  bool      // a modifies clause was given
 	ModAll  bool      // "modifies everything"
 	ModGhosts bool    // "modifies ghosts": any ghost cell (records kept on envelopes handed to user code)
+	Inline  map[string]bool // callees whose body is verified in place instead of through their contract
 	ReturnsChan string // accessor returning a channel held in a struct field ("channel.inMsgChan")
 	Pure    bool
 	Derive  string // "wire": ensures clauses are derived mechanically (derive.go)
@@ -619,6 +620,13 @@ func (s *Spec) load(path string, prefix string) error {
 			cur.Derive = rest
 		case "returns-chan":
 			cur.ReturnsChan = rest
+		case "inline":
+			if cur.Inline == nil {
+				cur.Inline = map[string]bool{}
+			}
+			for _, n := range splitNames(rest) {
+				cur.Inline[n] = true
+			}
 		case "reveals":
 			cur.Reveals = append(cur.Reveals, splitNames(rest)...)
 		case "oncall":
